@@ -226,7 +226,7 @@ theorem cstep_rel (P : Prog) (hP : NoWaitOn P) (s : CState) (d : Cfg) (e : CEv) 
       exact ⟨⟨L, hL, h1⟩, hclean, h2, hinv⟩
     | cons n ns =>
       have hok : cutsOk P (n :: ns) s.cur = true := hadm
-      rcases tickEntry_sim P hP (ext s.cur L) d hat with ⟨h1, _, _, h4, _⟩ | ⟨c0', d0, h1, h2, h3, h4⟩
+      rcases tickEntry_sim P (ext s.cur L) d hat with ⟨h1, _, _, h4, _⟩ | ⟨c0', d0, h1, h2, h3, h4⟩
       · -- the callback does not enter the loop: the instance is not at a step boundary, no checkpoint can be taken
         exfalso
         simp only [cutsOk, Bool.and_eq_true] at hok
